@@ -426,6 +426,43 @@ func Pure(p *core.Prog, r *core.Report) {
 				okDE = false
 			}
 		})
+		// a null member matches the null instance: the direct comparison of data with the member is not
+		// confined to data != nil; and the conversion fallback must not be able to change the value compared
+		nilOK, lossyPos := false, ""
+		core.EachInstr(f, func(i ssa.Instruction) {
+			c, ok := i.(*ssa.Call)
+			if !ok {
+				return
+			}
+			g := core.StaticCallee(c)
+			if g == nil {
+				return
+			}
+			switch core.QualName(g) {
+			case "reflect.DeepEqual":
+				if through(c.Call.Args[0]) == ssa.Value(data) {
+					guarded := false
+					for _, cd := range core.CondsAt(c.Block()) {
+						if bo, isBo := cd.Value.(*ssa.BinOp); isBo {
+							for _, op := range []ssa.Value{bo.X, bo.Y} {
+								if through(op) == ssa.Value(data) {
+									guarded = true
+								}
+							}
+						}
+					}
+					if !guarded {
+						nilOK = true
+					}
+				}
+			case "reflect.Value.Convert":
+				if !convertIsExact(c) {
+					lossyPos = p.Pos(c.Pos())
+				}
+			}
+		})
+		clause(nilOK, "EnumCase:nil-member", p.Pos(f.Pos()), "DeepEqual(data, member) is evaluated whatever data is: a nil member matches the nil value", "the comparison of data with each member only happens for data != nil: Enum(nil, [nil]) reports a failure although nil is a member")
+		clause(lossyPos == "", "EnumCase:lossy-conversion", p.Pos(f.Pos()), "no value-changing conversion decides membership", "membership is decided after reflect.Value.Convert of the instance to the member's type ("+lossyPos+"), guarded by ConvertibleTo only: the conversion truncates, wraps, rounds and turns integers into strings, so 1.5 is a member of [int64(1)], 97 of [\"a\"], -1 of [uint64 max]; and it panics for a slice against an array member of another length")
 		clause(nDE >= 2 && okDE, "EnumCase:deep-equality", p.Pos(f.Pos()), "membership decided by reflect.DeepEqual(data, member) for each member (plus conversion fallback)", "EnumCase no longer compares data with each enum member by deep equality")
 		clause(okConv, "EnumCase:conversion-per-member", p.Pos(f.Pos()), "the conversion fallback converts data to the type of the very member it is compared with", "the conversion fallback converts data to a type that is not the type of the member being compared (e.g. computed once for another member): numerically equal values of other Go types are missed")
 		// case folding only through strings.EqualFold on both string forms
@@ -712,4 +749,37 @@ func PatternSearch(p *core.Prog, r *core.Report) {
 	if n == 0 {
 		r.Unk("PURE", "Pattern:search", "-", "validate.Pattern not found")
 	}
+}
+
+// convertIsExact: a reflect.Value.Convert whose result decides an equality is acceptable only when something
+// other than ConvertibleTo restricts it: a round-trip comparison (the converted value converted back and compared
+// with the original) or a kind test of both sides dominating it. Nothing of the sort: the conversion can change
+// the value (Go conversion semantics).
+func convertIsExact(c *ssa.Call) bool {
+	for _, cd := range core.ControlConds(c.Block()) {
+		call, ok := cd.Value.(*ssa.Call)
+		if !ok {
+			continue
+		}
+		g := core.StaticCallee(call)
+		if g == nil {
+			continue
+		}
+		switch core.QualName(g) {
+		case "reflect.Type.ConvertibleTo", "reflect.Value.IsValid", "reflect.Value.CanConvert":
+			continue
+		}
+		if g.Pkg != nil && c.Parent().Pkg == g.Pkg && cd.Sense {
+			return true // a predicate of the package guards the conversion (e.g. an exactness test)
+		}
+	}
+	// round trip: the converted value is converted again somewhere and compared
+	for _, ref := range core.Refs(c) {
+		if c2, ok := ref.(*ssa.Call); ok {
+			if g := core.StaticCallee(c2); g != nil && core.QualName(g) == "reflect.Value.Convert" && c2.Call.Args[0] == ssa.Value(c) {
+				return true
+			}
+		}
+	}
+	return false
 }
